@@ -77,6 +77,8 @@ func intGrid(tier string) []*big.Int {
 	b, _ := new(big.Int).SetString("fedcba9876543210fedcba9876543210fedcba9876543210ff", 16)
 	add(a)
 	add(b)
+	// beyond the range of every float format the interpreter could take a shortcut through (2^1100 > 1.8e308)
+	add(pow2(1100))
 	if tier == engine.Thorough {
 		// thorough: the neighbourhood of every representation boundary (word sizes, float mantissas, two and four
 		// words) and the small integers
@@ -94,6 +96,10 @@ func intGrid(tier string) []*big.Int {
 
 func ratGrid() []*big.Rat {
 	var g []*big.Rat
+	// a ratio too small for a double float (it is not zero, it has a sign) and one too large
+	tiny := new(big.Rat).SetFrac(big.NewInt(1), pow2(1100))
+	huge := new(big.Rat).SetFrac(new(big.Int).Add(pow2(1100), big.NewInt(1)), big.NewInt(2))
+	g = append(g, tiny, new(big.Rat).Neg(tiny), huge)
 	nums := []*big.Int{big.NewInt(1), big.NewInt(2), big.NewInt(3), pow2(31), pow2(63), new(big.Int).Add(pow2(64), big.NewInt(1))}
 	seen := map[string]bool{}
 	for _, n := range nums {
@@ -106,15 +112,15 @@ func ratGrid() []*big.Rat {
 			g = append(g, r, new(big.Rat).Neg(r))
 		}
 	}
-	if 20 < len(g) {
-		g = g[:20]
+	if 23 < len(g) {
+		g = g[:23]
 	}
 	return g
 }
 
 var binOps = []string{"+", "-", "*", "/", "floor", "ceiling", "truncate", "round", "mod", "rem", "gcd", "lcm",
 	"logand", "logior", "logxor", "=", "/=", "<", "<=", ">", ">=", "max", "min", "incf", "decf"}
-var intOnly = map[string]bool{"mod": true, "rem": true, "gcd": true, "lcm": true, "logand": true, "logior": true, "logxor": true}
+var intOnly = map[string]bool{"gcd": true, "lcm": true, "logand": true, "logior": true, "logxor": true}
 var unOps = []string{"abs", "1+", "1-", "neg", "recip", "isqrt", "zerop", "plusp", "minusp", "lognot", "floor1", "ceiling1", "truncate1", "round1", "incf1", "decf1", "numerator", "denominator", "evenp", "oddp", "signum"}
 var triOps = []string{"+", "*", "-", "<", "=", "<=", "max", "min"}
 var cmpOps = []string{"=", "/=", "<", "<=", ">", ">="}
@@ -676,11 +682,19 @@ func execFloat(parts []string) (res engine.Result) {
 	switch kind {
 	case "d":
 		f, _ := nf.Float64()
+		if math.IsInf(f, 0) {
+			res.Outcome = "skip" // no double float near this integer: an infinity is not a number to compare with
+			return
+		}
 		switch adj {
 		case "lo":
 			f = math.Nextafter(f, math.Inf(-1))
 		case "hi":
 			f = math.Nextafter(f, math.Inf(1))
+		}
+		if math.IsInf(f, 0) {
+			res.Outcome = "skip"
+			return
 		}
 		fobj = slip.DoubleFloat(f)
 		fval = new(big.Rat)
